@@ -1198,7 +1198,7 @@ class Interp:
         if path.startswith('pretty::DocAllocator::') or path.startswith('pretty::Arena'):
             if last == 'text':
                 x = deref(args[1]) if len(args) > 1 else TOP
-                return Doc((('text', x if isinstance(x, (Text, Const)) else TOP),))
+                return Doc((('text', x if isinstance(x, (Text, Const, Top)) else TOP),))
             if last in ('hardline', 'space', 'line', 'line_', 'softline', 'softline_', 'nil'):
                 m.events.append(('make', last))
                 return Doc(((last,),))
